@@ -2,6 +2,7 @@ package props
 
 import (
 	"fmt"
+	"go/types"
 	"strings"
 
 	"golang.org/x/tools/go/ssa"
@@ -134,7 +135,23 @@ func c19Parse(c *Ctx) {
 	// each accept copies the whole remaining payload into the hash array
 	for _, e := range succ {
 		at := b.Of(e.Results[1], e.Instr)
-		cp, _ := ana.Find("call<builtin.copy>(slice(faddr<#0>(self), 0, none), "+rest+")", at)
+		cp, cb := ana.Find("call<builtin.copy>(slice(faddr<#0>(self), 0, $n), "+rest+")", at)
+		if cp != nil {
+			// the destination is the whole hash array of the returned address type
+			full := false
+			if al, _ := ana.Find("alloc<*>", at); al != nil {
+				if a, isA := al.V.(*ssa.Alloc); isA {
+					if st, ok := a.Type().(*types.Pointer).Elem().Underlying().(*types.Struct); ok && st.NumFields() > 0 {
+						if arr, ok := st.Field(0).Type().Underlying().(*types.Array); ok {
+							full = cb["$n"].IsInt(arr.Len())
+						}
+					}
+				}
+			}
+			if !full {
+				cp = nil
+			}
+		}
 		r.Check(cp != nil, "C19.parse-exits.copies-payload", c.ipos(e.Instr), "address = zero value with hash[:] overwritten by the payload after the version byte: %s", short(at.String(), 200))
 	}
 	// index guard
@@ -344,7 +361,7 @@ func c19Migration(c *Ctx) {
 	}
 	for _, e := range succ {
 		t := b.Of(e.Results[0], e.Instr)
-		cp, _ := ana.Find("call<builtin.copy>(slice(self, 0, none), ext#0("+addrDec+"))", t)
+		cp, _ := ana.Find("call<builtin.copy>(slice(self, 0, 32), ext#0("+addrDec+"))", t)
 		r.Check(cp != nil, "C19.migration-gates.returned-address", c.ipos(e.Instr), "returned address = the 32 bytes decoded from the first 64 trytes after the prefix")
 	}
 	// layout arithmetic: 81 = len(prefix) + 64 + 8 + len(suffix); 8 trytes = 4 bytes
